@@ -54,7 +54,8 @@ class C14(Prop):
                    'the poll timer interval is long (no tick during a case); polls are counted at the fake channel']
     quick_examples = 600
     thorough_examples = 1200
-    floors = {'shutdown_with_failure': 0.1, 'pre_existing_hook': 0.3, 'no_trace': 0.15, 'parked_thread': 0.08}
+    floors = {'shutdown_with_failure': 0.1, 'pre_existing_hook': 0.3, 'no_trace': 0.15, 'parked_thread': 0.08,
+              'poll_in_flight_at_shutdown': 0.01}
 
     def strategy(self, tier):
         plugin = fd({'roles': st.lists(st.sampled_from(['decorator', 'logger', 'resource', 'metric']),
@@ -71,9 +72,79 @@ class C14(Prop):
             'parked': st.sampled_from([True, True, False]),
             'step_fault': st.sampled_from([None, None, None, 'flush', 'poll']),
             'poll': st.sampled_from(['update', 'update', 'nochange']),
+            # shutdown is called while a timer-driven poll is waiting for a slow service
+            'inflight': st.sampled_from([False] * 24 + [True]),
         })
 
+    def case_inflight(self, recipe):
+        out = Outcome()
+        out.cls('poll_in_flight_at_shutdown')
+        out.nontrivial = True
+        hold, inflight, done = threading.Event(), threading.Event(), threading.Event()
+        polls = []
+
+        def responder(method, raw):
+            if method.endswith('poll'):
+                polls.append(threading.current_thread().name)
+                if len(polls) >= 2:
+                    inflight.set()
+                    hold.wait(20)       # the service is slow: the answer comes when the harness says so
+                if recipe.get('poll') == 'nochange' or len(polls) < 2:
+                    return PollResponse(ts_nanos=1, current_hash='', response_type=ResponseType.NO_CHANGE)
+                return PollResponse(ts_nanos=2, current_hash='H2', response_type=ResponseType.UPDATE, response=[
+                    TracePointConfig(ID='tp-late', path='c14_host.py', line_number=TP_LINE,
+                                     args={'fire_count': '-1', 'fire_period': '0', 'log_msg': 'x={x}'}, watches=[])])
+            return SnapshotResponse()
+
+        from deep.config import ConfigService
+        from deep.config.tracepoint_config import TracepointConfigService
+        custom = dict(BUILTIN_OFF, APP_ROOT='/app', PLUGINS=[], POLL_TIMER=0.05, SERVICE_SECURE='False', NO_TRACE=True)
+        d = Deep(ConfigService(custom, tracepoints=TracepointConfigService()))
+        lab.patch_grpc_start(d, lab.FakeChannel(responder))
+        timer = None
+        try:
+            d.start()
+            timer = d.poll.timer
+            if not inflight.wait(10):
+                raise HarnessError('the timer never polled')
+            exc = []
+
+            def shut():
+                try:
+                    d.shutdown()
+                except BaseException as e:      # noqa
+                    exc.append(e)
+                finally:
+                    done.set()
+            t = threading.Thread(target=shut, name='c14-shutdown')
+            t.start()
+            # shutdown may take as long as the poll does; what it must not do is return with the poll thread alive.
+            # The wait only decides how long a premature return is given to show itself, never the verdict.
+            returned = done.wait(0.3)
+            alive = timer.thread.is_alive()
+            if returned and alive:
+                out.violate('after shutdown: the poll timer is still running (a poll was in flight)')
+            hold.set()
+            t.join(20)
+            timer.thread.join(20)
+            if t.is_alive() or timer.thread.is_alive():
+                raise HarnessError('shutdown / poll thread did not finish')
+            if exc:
+                out.violate('shutdown raised %s' % lab.exc_bucket(exc[0]))
+        finally:
+            hold.set()
+            if timer is not None:
+                timer.event.set()
+            try:
+                d.task_handler._pool.shutdown(wait=False)
+            except BaseException:      # noqa
+                pass
+            lab.reset_world()
+        return out
+
     def run_case(self, recipe):
+        if recipe.get('inflight'):
+            return self.case_inflight(recipe)
         out = Outcome()
         lab.reset_world()
         old_sys, old_thr = sys.gettrace(), threading.gettrace()
